@@ -145,8 +145,335 @@ func innerRender(v Val) string {
 	return render(v)
 }
 
-func runC04(c *Ctx) {
+func runC04(c *Ctx) { runC04Full(c) }
+
+// checkCompCellWriter: the -zip writer of the action table (R04.2 / R12.2b).
+func checkCompCellWriter(c *Ctx, p *Prog, rule, ruleConf string) {
+	fn := p.Func(parserGenPkg, "GenCompActionTable")
+	if fn == nil {
+		c.Undecided(rule, "GenCompActionTable", "function not found")
+		return
+	}
+	hs := loopHeaders(fn)
+	if len(hs) != 2 {
+		c.Undecided(rule, "GenCompActionTable", fmt.Sprintf("expected two nested loops, found %d", len(hs)))
+		return
+	}
+	inner := hs[1]
+	codes := map[string]string{"Accept": "0", "Reduce": "1", "Shift": "2"}
+	for _, kind := range actionKinds {
+		for _, conf := range []bool{false, true} {
+			var act Val
+			T := actionType(p, kind)
+			if kind == "Shift" || kind == "Reduce" {
+				act = VIface{Dyn: T, V: VSym{Name: "a"}}
+			} else {
+				act = VIface{Dyn: T, V: VOpq{"true"}}
+			}
+			var appended []string
+			asked := ""
+			reg := &Region{Fn: fn, Start: inner, Cuts: cutSet(hs...),
+				PhiInputs: map[string]Val{"rangeindex": VSym{Name: "j"}},
+				Summaries: map[string]Summary{
+					"*.Action": func(r *Run, cc *ssa.CallCommon, args []Val) (Val, error) {
+						asked = render(args[1])
+						return VTuple{act, VOpq{"symConflicts"}}, nil
+					},
+					"*.CanRecover": pureSummary("CanRecover"),
+					"*.Size":       func(r *Run, cc *ssa.CallCommon, args []Val) (Val, error) { return VSym{Name: "SIZE"}, nil },
+					"*.Set":        pureSummary("Set"),
+					"fmt.Sprintf":  SprintfSummary,
+					"builtin:append": func(r *Run, cc *ssa.CallCommon, args []Val) (Val, error) {
+						appended = append(appended, strings.Join(r.VarargElems(args[1]), ","))
+						return VOpq{"APP"}, nil
+					},
+				},
+				PreWorld: &MapWorld{Ints: map[string]int64{"SIZE": 2, "len(tokMap.TypeMap)": 3}},
+			}
+			nc := int64(0)
+			if conf {
+				nc = 2
+			}
+			w := &MapWorld{Ints: map[string]int64{"j": 1, "len(tokMap.TypeMap)": 9, "len(symConflicts)": nc}}
+			out := InterpretSafe(reg, w)
+			name := fmt.Sprintf("GenCompActionTable cell: action %s, conflicts=%v", kind, conf)
+			if out.Term == "undecided" {
+				c.Undecided(rule, name, out.Undecided, p.FnPos(fn))
+				continue
+			}
+			want := ""
+			switch kind {
+			case "Accept":
+				want = "0,0,j+1"
+			case "Reduce", "Shift":
+				want = codes[kind] + ",a,j+1"
+			}
+			got := strings.Join(appended, ";")
+			c.Ob(rule, name, got == want && asked == "tokMap.TypeMap[j+1]", fmt.Sprintf("appended (Action,Amount,Index)=%q for the action of %s; required %q (codes accept 0, reduce 1, shift 2; Amount = the action's number; error cells skipped; Index = the symbol's column)", got, asked, want), p.FnPos(fn))
+			var maps []string
+			for _, e := range out.Events {
+				if strings.HasPrefix(e, "mapupdate ") {
+					maps = append(maps, e)
+				}
+			}
+			wantMaps := ""
+			if conf {
+				wantMaps = "[tokMap.TypeMap[j+1]] = symConflicts"
+			}
+			gm := strings.Join(maps, ";")
+			okc := (wantMaps == "" && gm == "") || (wantMaps != "" && len(maps) == 1 && strings.HasSuffix(gm, wantMaps))
+			c.Ob(ruleConf, name, okc, fmt.Sprintf("conflict map updates %v; required suffix %q", maps, wantMaps), p.FnPos(fn))
+		}
+	}
+}
+
+// checkCompRowTail: after the cells of a state, -zip records the state iff it had conflicts.
+func checkCompRowTail(c *Ctx, p *Prog, rule string) {
+	fn := p.Func(parserGenPkg, "GenCompActionTable")
+	if fn == nil {
+		return
+	}
+	hs := loopHeaders(fn)
+	if len(hs) != 2 {
+		return
+	}
+	for _, n := range []int64{0, 1, 2} {
+		lenName := ""
+		reg := &Region{Fn: fn, Start: hs[1], Cuts: cutSet(hs...),
+			PhiInputs: map[string]Val{"rangeindex": VSym{Name: "j"}},
+			Summaries: map[string]Summary{
+				"*.CanRecover": pureSummary("CanRecover"),
+				"*.Size":       func(r *Run, cc *ssa.CallCommon, args []Val) (Val, error) { return VSym{Name: "SIZE"}, nil },
+				"*.Set":        pureSummary("Set"),
+			},
+			PreWorld: &MapWorld{Ints: map[string]int64{"SIZE": 2, "len(tokMap.TypeMap)": 3}},
+		}
+		w := &MapWorld{Ints: map[string]int64{"j": 8, "len(tokMap.TypeMap)": 9}}
+		w.AtomFn = func(key string) (bool, bool) { return false, false }
+		// the per-state conflict map is a fresh map; its length is the world's choice
+		for k := 1; k < 6; k++ {
+			w.Ints[fmt.Sprintf("len(map#%d)", k)] = n
+		}
+		_ = lenName
+		out := InterpretSafe(reg, w)
+		var maps []string
+		for _, e := range out.Events {
+			if strings.HasPrefix(e, "mapupdate ") {
+				maps = append(maps, e)
+			}
+		}
+		ok := strings.HasPrefix(out.Term, "cut:") && ((n == 0 && len(maps) == 0) || (n > 0 && len(maps) == 1 && strings.Contains(maps[0], "[rangeindex") || n > 0 && len(maps) == 1))
+		c.Ob(rule, fmt.Sprintf("GenCompActionTable: state with %d conflicting symbols", n), ok, fmt.Sprintf("term=%s map updates %v %s; required: the state is recorded iff at least one symbol conflicts", out.Term, maps, out.Undecided), p.FnPos(fn))
+	}
+}
+
+// checkConflictPlumbing: per-state conflicts reach main.handleConflicts.
+func checkConflictPlumbing(c *Ctx, p *Prog, rule string) {
+	// getActionTableData loop body
+	fn := p.Func(parserGenPkg, "getActionTableData")
+	if fn == nil {
+		c.Undecided(rule, "getActionTableData", "function not found")
+	} else {
+		hs := loopHeaders(fn)
+		if len(hs) != 1 {
+			c.Undecided(rule, "getActionTableData", "expected one loop")
+		} else {
+			for _, conf := range []bool{true, false} {
+				reg := &Region{Fn: fn, Start: hs[0], Cuts: cutSet(hs[0]), PhiInputs: map[string]Val{"rangeindex": VSym{Name: "i"}, "row": VOpq{"row0"}, "cnflcts": VOpq{"c0"}},
+					Summaries: map[string]Summary{
+						"*.getActionRowData": func(r *Run, cc *ssa.CallCommon, args []Val) (Val, error) {
+							return VTuple{VOpq{"ROW"}, VOpq{"ROWCONF"}}, nil
+						},
+						"*.Set":  pureSummary("Set"),
+						"*.Size": func(r *Run, cc *ssa.CallCommon, args []Val) (Val, error) { return VSym{Name: "SIZE"}, nil },
+					},
+					PreWorld: &MapWorld{Ints: map[string]int64{"SIZE": 4}},
+				}
+				n := int64(0)
+				if conf {
+					n = 1
+				}
+				out := InterpretSafe(reg, &MapWorld{Ints: map[string]int64{"i": 1, "SIZE": 4, "len(ROWCONF)": n}})
+				var maps []string
+				for _, e := range out.Events {
+					if strings.HasPrefix(e, "mapupdate ") {
+						maps = append(maps, e)
+					}
+				}
+				want := ""
+				if conf {
+					want = "[i+1] = ROWCONF"
+				}
+				gm := strings.Join(maps, ";")
+				ok := out.Term != "undecided" && ((want == "" && gm == "") || (want != "" && len(maps) == 1 && strings.HasSuffix(gm, want)))
+				c.Ob(rule, fmt.Sprintf("getActionTableData: row has conflicts=%v", conf), ok, fmt.Sprintf("map updates %v %s; required: state i+1 is recorded iff its row reported conflicts", maps, out.Undecided), p.FnPos(fn))
+			}
+		}
+	}
+	// Gen returns what GenActionTable returned; main hands it to handleConflicts
+	gen := p.Func("internal/parser/gen", "Gen")
+	if gen == nil {
+		c.Undecided(rule, "parser/gen.Gen", "function not found")
+	} else {
+		reg := &Region{Fn: gen, Summaries: map[string]Summary{"*": nil}}
+		reg.Summaries = map[string]Summary{}
+		for _, n := range []string{"GenAction", "GenContext", "GenErrors", "GenGotoTable", "GenParser", "GenProductionsTable"} {
+			nn := n
+			reg.Summaries["*."+n] = func(r *Run, cc *ssa.CallCommon, args []Val) (Val, error) {
+				r.Event("%s", nn)
+				return VTuple{}, nil
+			}
+		}
+		reg.Summaries["*.GenActionTable"] = func(r *Run, cc *ssa.CallCommon, args []Val) (Val, error) {
+			r.Event("GenActionTable")
+			return VOpq{"CONFLICTS"}, nil
+		}
+		reg.Summaries["invoke:Zip"] = func(r *Run, cc *ssa.CallCommon, args []Val) (Val, error) { return VAtom{Key: "zip"}, nil }
+		out := InterpretSafe(reg, &MapWorld{})
+		c.Ob(rule, "parser/gen.Gen returns the conflicts", out.Term == "return" && len(out.Results) == 1 && out.Results[0] == "CONFLICTS", fmt.Sprintf("term=%s results=%v %s", out.Term, out.Results, out.Undecided), p.FnPos(gen))
+	}
+	gat := p.Func(parserGenPkg, "GenActionTable")
+	if gat != nil {
+		for _, zip := range []bool{false, true} {
+			reg := &Region{Fn: gat, Summaries: map[string]Summary{
+				"*.GenCompActionTable": func(r *Run, cc *ssa.CallCommon, args []Val) (Val, error) { return VOpq{"ZIPCONF"}, nil },
+				"*.getActionTableData": func(r *Run, cc *ssa.CallCommon, args []Val) (Val, error) {
+					return VTuple{VOpq{"DATA"}, VOpq{"PLAINCONF"}}, nil
+				},
+				"*.New":       pureSummary("New"),
+				"*.Parse":     func(r *Run, cc *ssa.CallCommon, args []Val) (Val, error) { return VTuple{VOpq{"tmpl"}, VIface{}}, nil },
+				"*.Execute":   func(r *Run, cc *ssa.CallCommon, args []Val) (Val, error) { return VIface{}, nil },
+				"*.WriteFile": func(r *Run, cc *ssa.CallCommon, args []Val) (Val, error) { return VTuple{}, nil },
+				"path.Join":   pureSummary("Join"),
+				"*.Bytes":     pureSummary("Bytes"),
+			}, Params: map[string]Val{"zip": boolConst(zip)}}
+			out := InterpretSafe(reg, &MapWorld{})
+			want := "PLAINCONF"
+			if zip {
+				want = "ZIPCONF"
+			}
+			c.Ob(rule, fmt.Sprintf("GenActionTable(zip=%v) returns its writer's conflicts", zip), out.Term == "return" && len(out.Results) == 1 && out.Results[0] == want, fmt.Sprintf("term=%s results=%v %s", out.Term, out.Results, out.Undecided), p.FnPos(gat))
+		}
+	}
+	// main: the value handed to handleConflicts is Gen's result
+	mainFn := p.Func("", "main")
+	okFlow := false
+	if mainFn != nil {
+		for _, b := range mainFn.Blocks {
+			for _, in := range b.Instrs {
+				if call, ok := in.(*ssa.Call); ok {
+					if f := call.Call.StaticCallee(); f != nil && f.Name() == "handleConflicts" {
+						if src, ok := call.Call.Args[0].(*ssa.Call); ok {
+							if g := src.Call.StaticCallee(); g != nil && g.Name() == "Gen" && strings.HasSuffix(g.Pkg.Pkg.Path(), "parser/gen") {
+								okFlow = true
+							}
+						}
+					}
+				}
+			}
+		}
+	}
+	c.Ob(rule, "main: handleConflicts receives Gen's conflicts", okFlow, "the first argument of handleConflicts is the value returned by parser/gen.Gen")
+}
+
+func checkHandleConflicts(c *Ctx, p *Prog, rule string) {
+	fn := p.Func("", "handleConflicts")
+	if fn == nil {
+		c.Undecided(rule, "main.handleConflicts", "function not found")
+		return
+	}
+	for _, n := range []int64{0, 3} {
+		for _, auto := range []bool{false, true} {
+			for _, verbose := range []bool{false, true} {
+				reg := &Region{Fn: fn, Params: map[string]Val{"conflicts": VOpq{"conflicts"}}, Summaries: map[string]Summary{
+					"invoke:Verbose":           func(r *Run, cc *ssa.CallCommon, args []Val) (Val, error) { return boolConst(verbose), nil },
+					"invoke:AutoResolveLRConf": func(r *Run, cc *ssa.CallCommon, args []Val) (Val, error) { return boolConst(auto), nil },
+					"invoke:OutDir":            pureSummary("OutDir"),
+					"fmt.Printf": func(r *Run, cc *ssa.CallCommon, args []Val) (Val, error) {
+						r.Event("print %s %s", render(args[0]), strings.Join(r.VarargElems(args[1]), ","))
+						return VTuple{VSym{Name: "n"}, VConst{}}, nil
+					},
+					"path.Join":        JoinSummary,
+					"*.conflictString": pureSummary("conflictString"),
+					"*.WriteFileString": func(r *Run, cc *ssa.CallCommon, args []Val) (Val, error) {
+						r.Event("write %s", render(args[0]))
+						return VTuple{}, nil
+					},
+					"os.Exit": func(r *Run, cc *ssa.CallCommon, args []Val) (Val, error) {
+						r.Exit(render(args[0]))
+						return nil, nil
+					},
+				}}
+				out := InterpretSafe(reg, &MapWorld{Ints: map[string]int64{"len(conflicts)": n}})
+				name := fmt.Sprintf("main.handleConflicts: %d conflicts, -a=%v, -v=%v", n, auto, verbose)
+				wantTerm := "return"
+				var wantEv []string
+				if n > 0 {
+					wantEv = append(wantEv, `print "%d LR-1 conflicts \n" int(len(conflicts))`)
+					if verbose {
+						wantEv = append(wantEv, `write Join(OutDir(cfg),"LR1_conflicts.txt")`)
+					}
+					if !auto {
+						wantTerm = "exit:1"
+					}
+				}
+				got := strings.Join(out.Events, "; ")
+				ok := out.Term == wantTerm && normalizeSpaces(got) == normalizeSpaces(strings.Join(wantEv, "; "))
+				c.Ob(rule, name, ok, fmt.Sprintf("term=%s events=[%s] %s; required term=%s events=%v (silent when there are no conflicts; otherwise announce the count and exit 1 unless -a)", out.Term, got, out.Undecided, wantTerm, wantEv), p.FnPos(fn))
+			}
+		}
+	}
+}
+
+func normalizeSpaces(s string) string { return strings.Join(strings.Fields(s), " ") }
+
+// checkExitCodes: every os.Exit in the module has a non-zero constant argument; no recover().
+func checkExitCodes(c *Ctx, p *Prog, rule string) {
+	n := 0
+	for _, fn := range sortedFuncs(p.Reach) {
+		if strings.Contains(fn.String(), "/internal/zz") {
+			continue
+		}
+		for _, b := range fn.Blocks {
+			for _, in := range b.Instrs {
+				call, ok := in.(ssa.CallInstruction)
+				if !ok {
+					continue
+				}
+				cc := call.Common()
+				if bi, ok := cc.Value.(*ssa.Builtin); ok && bi.Name() == "recover" {
+					c.Ob(rule, p.FnName(fn)+": recover", false, "recover() would turn a panic (non-zero exit) into a normal return", p.Pos(in.Pos()))
+				}
+				if f := cc.StaticCallee(); f != nil && f.String() == "os.Exit" {
+					n++
+					k, isC := cc.Args[0].(*ssa.Const)
+					ok := isC && k.Value != nil && k.Int64() != 0
+					c.Ob(rule, fmt.Sprintf("%s: os.Exit#%d", p.FnName(fn), n), ok, "every explicit exit is an error exit: its status must be a non-zero constant (status zero is reached only by returning from main)", p.Pos(in.Pos()))
+				}
+			}
+		}
+	}
+	if n < 4 {
+		c.Undecided(rule, "vacuity", fmt.Sprintf("only %d os.Exit calls found (5 confirmed by hand)", n))
+	}
+}
+
+func runC04Full(c *Ctx) {
 	p := c.RepoProg()
 	checkLR1Fold(c, p, "R04.1")
-	c.Explanation = "partial (under construction)"
+	checkCellWriters(c, p, "R04.2p", "R04.2")
+	checkCompCellWriter(c, p, "R04.2z", "R04.2")
+	checkCompRowTail(c, p, "R04.2")
+	checkConflictPlumbing(c, p, "R04.2")
+	checkHandleConflicts(c, p, "R04.3")
+	checkExitCodes(c, p, "R04.4")
+	// accept/reduce conflicts are refused in both modes: the resolution panics
+	for _, pr := range [][2]string{{"Accept", "Reduce"}, {"Reduce", "Accept"}, {"Accept", "Shift"}, {"Shift", "Accept"}} {
+		got, _ := resolveOutcome(p, pr[0], pr[1], 3, 7)
+		c.Ob("R04.3", fmt.Sprintf("%s.ResolveConflict(%s) refuses", pr[0], pr[1]), got == "panic", "a conflict involving accept must end in a panic (non-zero exit with and without -a); code yields "+got)
+	}
+	c.Assumptions = append(c.Assumptions, "the item sets the fold runs over are those of the canonical LR(1) automaton (C02) — NOT decided",
+		"a panic that is not recovered ends the process with a non-zero status (no recover() in the module: checked)")
+	c.Trusted = append(c.Trusted, "go/ssa", "checker/sx.go")
+	c.Explanation = "C04 decided on the reporting chain: (R04.1) the per-state fold records a conflict exactly when two non-error actions differ — the running action is always one of the actions seen, so 'some step saw a different action' is equivalent to 'not all equal'; (R04.2) both table writers (plain and -zip) record a symbol iff Action returned a non-empty conflict list and a state iff its row did, and the map travels unchanged through GenActionTable and Gen to main.handleConflicts; (R04.3) handleConflicts is silent and returns for zero conflicts, otherwise prints the count and exits 1 unless -a; conflicts involving accept panic in ResolveConflict in both modes; (R04.4) every os.Exit argument is a non-zero constant and nothing recovers panics, so status zero is reached only by main returning. NOT decided: correctness of the item sets themselves (C02)."
 }
